@@ -222,5 +222,6 @@ func c06RunValid(s c06ValidScen, c *ev.Case) *ev.Violation {
 }
 
 func TestC06Validity(t *testing.T) {
+	ev.SetRule("C06", c06Rule)
 	ev.RunN(t, "C06", 1.5, c06GenValid, c06RunValid)
 }
